@@ -24,5 +24,10 @@ func controlsC04() []Control {
 		{Name: "waiting arc includes the dealer seat", Expect: "R8", Mutate: replaceIn("(*seatManager).isBetweenDealerBB", "targetSeatID > dealerSeatID", "targetSeatID >= dealerSeatID", 0)},
 		{Name: "positions re-initialised on every hand", Expect: "R9", Mutate: replaceIn("(*tableEngine).openGame", "if !te.sm.IsInitPositions() {", "if te.sm.IsInitPositions() {", 0)},
 		{Name: "positions rotated twice per hand", Expect: "R9", Mutate: replaceIn("(*tableEngine).openGame", "\t// Step 5:", "\tte.sm.RotatePositions()\n\t// Step 5:", 0)},
+		{Name: "active count starts at one", Expect: "R6", Mutate: replaceIn("(*seatManager).getActivePlayerCount", "count := 0", "count := 1", 0)},
+		{Name: "initial small blind stored when the search found nobody", Expect: "R7", Mutate: replaceIn("(*seatManager).initPositions", "sbSeatID != UnsetSeatID {", "sbSeatID == UnsetSeatID {", 0)},
+		{Name: "initial positioning succeeds without positions when the seat choice worked", Expect: "R7", Mutate: replaceIn("(*seatManager).initPositions", "seatID, err := sm.randomOccupiedSeat()\n\t\tif err != nil {", "seatID, err := sm.randomOccupiedSeat()\n\t\tif err == nil {", 0)},
+		{Name: "backwards search ignores eligibility", Expect: "R5", Mutate: replaceIn("(*seatManager).previousOccupiedSeatID", "if shouldActive && sp.Active() {", "if shouldActive || sp.Active() {", 0)},
+		{Name: "seat count clobbered on short deck rotation", Expect: "R1", Mutate: replaceIn("(*seatManager).rotatePositions", "sm.DealerSeatID = sm.nextOccupiedSeatID(sm.DealerSeatID)\n\t\tsm.SBSeatID = UnsetSeatID", "sm.DealerSeatID = sm.nextOccupiedSeatID(sm.DealerSeatID)\n\t\tsm.MaxSeat = UnsetSeatID", 0)},
 	}
 }
